@@ -97,10 +97,15 @@ def run(pid, cfg, tier, seed, workdir, already_broken):
     for sp in _scen_paths(cfg.get("scenarios", [])):
         deep = any(os.path.basename(sp).startswith(x + "_") for x in cfg.get("deep", [])) or tier == "thorough"
         results += sweep.sweep(sp, os.path.join(workdir, "sweep"), maxp=maxp, two_level=True, three_level=deep)
+    # adversary for wait-freedom: a writer completes a store between the reader's read and its confirmation, every round
+    for (scen, rd, wr) in cfg.get("chase", []):
+        for sp in _scen_paths([scen]):
+            base = os.path.join(workdir, "chase-%s-%d-%d" % (scen, rd, wr))
+            results.append(corr.run_program(sp, 0, "chase:%d:%d" % (rd, wr), base, family="corpus"))
     for gp in sweep.grids_for(pid, ROOT):
         results += sweep.grid_sweep(gp, os.path.join(workdir, "grid"), tier=tier)
     if cfg.get("freeze"):
-        for sp in _scen_paths(cfg.get("scenarios", []))[:4 if tier == "quick" else 99]:
+        for sp in _scen_paths(cfg.get("scenarios", []))[:7 if tier == "quick" else 99]:
             results += sweep.freeze_sweep(sp, os.path.join(workdir, "freeze"),
                                           maxp=(14 if tier == "quick" else 40), maxq=(30 if tier == "quick" else 70))
     # random programs x schedules
